@@ -222,6 +222,28 @@ def check_c04(exe, tier, seed, verdict):
     inputs += run_sweep(tier)
     nrun = len(inputs) - nrun
     events, n_ok, n_parse, crashes = run_env(exe, inputs, verdict)
+    # big files on a thread with a 256 KiB stack (uninstrumented build): what a read puts on the stack must not grow with the
+    # number of lines or the size of the file
+    big = {"many-entries": b"".join(b"key%d=value %d\n" % (i, i) for i in range(60000)),
+           "many-sections": b"".join(b"[s%d]\nk=%d\n" % (i, i) for i in range(30000)),
+           "many-comment-lines": b"".join(b"# comment line number %d\n" % i for i in range(50000)) + b"k=v\n",
+           "many-continuation-lines": b"k=v\n" + b"".join(b"  continued %d\n" % i for i in range(50000)),
+           "one-long-line": b"k=" + b"v" * 3000000 + b"\n"}
+    bcases = []
+    for nm, data in big.items():
+        pth = ROOT + "/bigstack/%s.conf" % nm
+        bcases.append((nm, ["watchdog 900", "file %s %s" % (hx(pth), hx(data)), "readfile 1 %s x3d x23" % hx(pth), "groups 1", "free 1",
+                            "newopt 2 %s" % hx("JOIN_SAME_ENTRIES=1;ROOT_PREFIX=" + ROOT + "/bigstack/r-" + nm), "file %s %s" % (hx(ROOT + "/bigstack/r-" + nm + "/etc/c.conf"), hx(data)),
+                            "readconfig 2 - - %s %s x3d x23" % (hx("c"), hx("conf")), "free 2"]))
+    bres = core.run_cases(core.build("plain"), bcases, per_case_timeout=900, env={"DRV_STACK_KB": "256"})
+    for nm, _ in bcases:
+        out = bres.get(nm)
+        rds = [e for e in (out or {}).get("ev", []) if e["op"].startswith("read")]
+        if out is None or out["crash"] or len(rds) != 2 or any(e["rc"] != "ECONF_SUCCESS" for e in rds):
+            verdict.violation("C04:small-stack:%s" % nm, {"kind": "bigfile", "name": nm, "bytes": len(big[nm]), "crash": (out or {}).get("crash"), "reads": rds},
+                              "file %s (%d bytes) read on a thread with a 256 KiB stack: %s" % (nm, len(big[nm]), (out or {}).get("crash") or [e["rc"] for e in rds]))
+        else:
+            n_ok += 2
     ok, tr, _ = core.validate_trace("Envelope", os.path.join(core.SPEC, "Envelope.cfg"), events, timeout=600)
     mism = [x for x in tr.json_lines() if "mismatch" in x]
     if not ok and not mism:
@@ -232,7 +254,7 @@ def check_c04(exe, tier, seed, verdict):
             continue          # reported above with the failing input
         verdict.violation("C04:envelope:%s" % e["rc"], {"kind": "class", "event": e}, "outside the envelope: %s (%d inputs)" % (json.dumps(e), e["n"]))
     cov = {"evaluations": len(inputs), "distinct_nontrivial": n_ok + n_parse,
-           "rule": "(plus every file of <= 4 lines over a pool in which the library's own marker word _none_ appears as section name, key and value, and that word and printf conversion specifications as value, key, section name, comment, continuation - among the mutations) every byte string of length <= %d over the %d-symbol structural alphabet (blank, tab, newline, = : # ; \" [ ] a 1, NUL, 0xff): %d strings with delimiter '=' comment '#', a sample with the other parameter sets (blank / mixed / no delimiters, JOIN_SAME_ENTRIES, PYTHON_STYLE); %d byte-level mutations (insert/delete/replace/truncate, 1-3 edits) of random conventional files of all grammars; random byte strings; very long lines of structural characters around BUFSIZ; %d cardinality sweeps (every count 0..%d, and around 128/256/512/1024, of: distinct sections with 0/1/2 keys, keys without / in one section, repetitions of one key, continuation lines, comment lines, keys without delimiter, re-opened sections - the counts at which the object's arrays and lists grow); %d run-length sweeps (one structural character repeated n times behind a key / a delimiter / a header or in front of an entry, n across the growth steps 120, 240, ... 7680, 8192 of the line buffer, with and without final newline, plain / blank / mixed delimiter sets). Each input: read; on success every listing, 17 getter calls on every key, 4 merges, write, re-read. Aggregated event classes validated by Envelope.tla; ASan/UBSan abort = violation with the input. non-trivial = read succeeded with >= 1 entry (%d) or failed with a parse error (%d)." % (
+           "rule": "(plus five big files - 60000 entries, 30000 sections, 50000 comment lines, 50000 continuation lines, one line of 3 MB - read plainly and under JOIN_SAME_ENTRIES on a thread with a 256 KiB stack; plus every file of <= 4 lines over a pool in which the library's own marker word _none_ appears as section name, key and value, and that word and printf conversion specifications as value, key, section name, comment, continuation - among the mutations) every byte string of length <= %d over the %d-symbol structural alphabet (blank, tab, newline, = : # ; \" [ ] a 1, NUL, 0xff): %d strings with delimiter '=' comment '#', a sample with the other parameter sets (blank / mixed / no delimiters, JOIN_SAME_ENTRIES, PYTHON_STYLE); %d byte-level mutations (insert/delete/replace/truncate, 1-3 edits) of random conventional files of all grammars; random byte strings; very long lines of structural characters around BUFSIZ; %d cardinality sweeps (every count 0..%d, and around 128/256/512/1024, of: distinct sections with 0/1/2 keys, keys without / in one section, repetitions of one key, continuation lines, comment lines, keys without delimiter, re-opened sections - the counts at which the object's arrays and lists grow); %d run-length sweeps (one structural character repeated n times behind a key / a delimiter / a header or in front of an entry, n across the growth steps 120, 240, ... 7680, 8192 of the line buffer, with and without final newline, plain / blank / mixed delimiter sets). Each input: read; on success every listing, 17 getter calls on every key, 4 merges, write, re-read. Aggregated event classes validated by Envelope.tla; ASan/UBSan abort = violation with the input. non-trivial = read succeeded with >= 1 entry (%d) or failed with a parse error (%d)." % (
                maxlen, len(alpha), nstr, nmut, ncount, 72 if tier == "quick" else 300, nrun, n_ok, n_parse),
            "samples": events[:4], "exhaustive": False, "event_classes": len(events), "crashing_inputs": crashes,
            "trusted_base": ["gcc ASan/UBSan", "driver watchdog (20 s alarm per case)", "TLC 1.8.0 (envelope classes)"]}
